@@ -133,6 +133,13 @@ def run_case(op: str, args: list, stdout_encoding: str = "utf-8") -> str:
         a = list(args)
     else:
         a = [materialize(x) if not (op in ("key", "gpg") and x is args[0]) else x for x in args]
+    werror = stdout_encoding.endswith("+Werror")      # configuration: warnings promoted to errors (-W error / PYTHONWARNINGS=error / pytest filterwarnings)
+    if werror:
+        import warnings
+        with warnings.catch_warnings():
+            warnings.simplefilter("error")
+            with quiet_stdout(stdout_encoding[:-len("+Werror")]):
+                return _run(op, a)
     with quiet_stdout(stdout_encoding):
         return _run(op, a)
 
